@@ -21,6 +21,7 @@ def dispatch (op : String) (payload : Json) : R Json :=
   | "cache_gate" => C19.handleGate payload
   | "cache_history" => C19.handleHistory payload
   | "cache_deps_history" => C19.Deps.handleHistory payload
+  | "cache_x_history" => C19.X.handleHistory payload
   | "cache_argkey" => C19.Deps.handleArgsKey payload
   | "ser" => C18.handleSer payload
   | "structure" => C18.handleStructure payload
@@ -39,6 +40,7 @@ def dispatch (op : String) (payload : Json) : R Json :=
   | "blacklist" => C06.handleBlacklist payload
   | "regex" => C06.handleRegex payload
   | "resolve_local" => C06.handleLocal payload
+  | "star_expand" => C06.handleStarExpand payload
   | "annotation" => C11.handleAnnotation payload
   | "file_decision" => C11.handleDecision payload
   | "is_name" => C11.handleIsName payload
